@@ -10,7 +10,7 @@ import asyncio
 import itertools
 
 from hv import boot  # noqa: F401
-from hv.core import Result, viol
+from hv.core import Result, task_failure, viol
 from hv.scopeprog import Run
 from hv.vloop import Livelock
 from hv.world import Chooser, World
@@ -267,8 +267,8 @@ def _enter_cancelled(program, ch: Chooser) -> Result:
             w.run()
         except Livelock:
             pass
-        if not t.done() or t.exception() is not None:
-            viols.append(viol("termination", "enter-cancelled/driver", "driver finishes", repr(t.exception() if t.done() else "pending")[:120]))
+        if task_failure(t) is not None:
+            viols.append(viol("termination", "enter-cancelled/driver", "driver finishes", task_failure(t)[:120]))
         elif not all(st.get("done_at_return", [False])):
             viols.append(
                 viol("all-done-at-exit", f"task-outlives-scope/after-cancelled-nested-enter/body-{program['ending']}", "task spawned into the outer scope is finished when it is left", st.get("done_at_return"))
